@@ -189,12 +189,25 @@ def run_tables(binary, N, p):
     return sch, sr
 
 
+POLICIES = ["uniform", "racer", "starve", "late", "burst"]
+
+
+def wire_variant(N, p, sch):
+    """buffer size and scheduler policy of a wire job (routes must not depend on either): rotated over the jobs"""
+    k = N + 2 * p + SCHEMES.index(sch)
+    return (0 if k % 2 else None), POLICIES[k % 5]
+
+
 def run_p2p(binary, N, p, sch, lo, hi, sim_seed=1):
     n = N * p
+    buf, pol = wire_variant(N, p, sch)
+    env = {"YGM_COMM_ROUTING": sch}
+    if buf is not None:
+        env["YGM_COMM_BUFFER_SIZE_KB"] = buf
     pairs = (min(hi, n) - lo) * n
     # a healthy run needs about 5*n scheduler steps per pair; a forwarding loop must hit the budget quickly
-    return C.run_sim(binary, ["p2p", lo, hi], nodes=N, ppn=p, env={"YGM_COMM_ROUTING": sch}, sim_seed=sim_seed,
-                     log_bytes=16, timeout=600, max_steps=5000 + pairs * (40 * n + 400))
+    return C.run_sim(binary, ["p2p", lo, hi], nodes=N, ppn=p, env=env, sim_seed=sim_seed, policy=pol,
+                     log_bytes=16, timeout=600, max_steps=5000 + pairs * (60 * n + 600))
 
 
 def check_tables(res, N, p, envsch, sr, M, model_ok):
@@ -296,6 +309,8 @@ def check_wire(res, N, p, sch, sr, lo, hi, M, model_ok, node, loc, wire_routes):
                     res.corr_failures.append({"relation": "every transmission carries exactly the one message with header dest = d", "what": f"{a}->{b}: bytes {nbytes} header size {sz} dest {dest}", "case": case})
         k = kinds(node, s, route) if all(0 <= h < n for h in route) else None
         res.count(sch + ":" + ("/".join("off" if x else "on" for x in k) if k else "bad"))
+        res.count("wire-policy:" + wire_variant(N, p, sch)[1])
+        res.count("wire-buffer:" + ("0" if wire_variant(N, p, sch)[0] == 0 else "default"))
         if model_ok:
             mr = M["routes"][sch][s][d]
             if route != mr:
